@@ -12,11 +12,11 @@ run_demo() {
   if [ -n "$rs" ]; then
     mkdir -p tests; cp "$SD"/demo/*.rs tests/
     local name; name=$(basename "$rs" .rs)
-    cargo test --offline --test "$name" > /tmp/confirm_demo.out 2>&1; local rc=$?
+    cargo test --offline --test "$name" > /tmp/confirm_demo_$(basename $WT).out 2>&1; local rc=$?
     rm -rf tests; return $rc
   elif ls "$SD"/demo/*.sh > /dev/null 2>&1; then
     local sh; sh=$(ls "$SD"/demo/run*.sh "$SD"/demo/demo*.sh "$SD"/demo/*.sh 2>/dev/null | head -1)
-    bash "$sh" "$WT" > /tmp/confirm_demo.out 2>&1; return $?
+    bash "$sh" "$WT" > /tmp/confirm_demo_$(basename $WT).out 2>&1; return $?
   else
     echo "no demo found"; return 99
   fi
@@ -24,9 +24,9 @@ run_demo() {
 ok=1
 run_demo; rc=$?; echo "demo on clean tree: rc=$rc (want 0)"; [ $rc -eq 0 ] || ok=0
 git apply "$SD/patch.diff" || { echo "patch does not apply"; exit 1; }
-cargo test --workspace --no-fail-fast --offline > /tmp/confirm_suite.out 2>&1
-passed=$(grep -E "^test result" /tmp/confirm_suite.out | sed -E 's/.* ([0-9]+) passed.*/\1/' | paste -sd+ | bc)
-failed=$(grep -E "^test result" /tmp/confirm_suite.out | sed -E 's/.* ([0-9]+) failed.*/\1/' | paste -sd+ | bc)
+cargo test --workspace --no-fail-fast --offline > /tmp/confirm_suite_$(basename $WT).out 2>&1
+passed=$(grep -E "^test result" /tmp/confirm_suite_$(basename $WT).out | sed -E 's/.* ([0-9]+) passed.*/\1/' | paste -sd+ | bc)
+failed=$(grep -E "^test result" /tmp/confirm_suite_$(basename $WT).out | sed -E 's/.* ([0-9]+) failed.*/\1/' | paste -sd+ | bc)
 echo "suite with change: passed=$passed failed=$failed (want 68/0)"; [ "$passed" = "68" ] && [ "$failed" = "0" ] || ok=0
 run_demo; rc=$?; echo "demo with change: rc=$rc (want non-zero)"; [ $rc -ne 0 ] || ok=0
 git checkout -q -- . ; rm -rf tests
